@@ -344,6 +344,11 @@ def sym_required(f, want=True, out=None):
     return out
 
 
+class BSet(list):
+    """a BTreeSet value: a list kept sorted and duplicate-free by the client's key function (Folder.set_key)"""
+    pass
+
+
 class Cycle:
     """`iter.cycle()` of a finite sequence (only consumable through zip with a finite one)"""
     def __init__(self, items):
@@ -367,8 +372,9 @@ class Folder:
     def __init__(self, facts, env=None, lets=None, on_call=None, effects=False, local_calls=2):
         self.local_calls = local_calls  # fold calls to crate-local functions by folding their bodies (depth bound)
         self.opaque_consts = False      # associated constants of generic parameters (M::HIGH) become opaque tokens
-        self.views = False              # sub-slices as write-through views (only needed when code stores through slices)
+        self.views = bool(effects)      # sub-slices as write-through views (stores through `&mut v[a..b]` reach v)
         self.max_iter = 4096
+        self.set_key = None             # element -> sort key: enables the BTreeSet model (BSet)
         self.sym_eq = None              # (a, b) -> bool: an equality test between these opaque values yields a symbolic boolean (Sym)
         self.path = []                  # symbolic conditions that had to be true to get past an early `return Err(..)`
         self.effects = effects  # loop-free statement execution (let mut, assignment, early return)
@@ -377,12 +383,22 @@ class Folder:
         self.lets = lets or {}
         self.on_call = on_call
 
+    def _enum_consts(self, val, ty):
+        """a constant table of fieldless crate-enum values arrives from CTFE as [[variant index], ..]: turned into enum values"""
+        m = re.match(r"^&?\[([\w:]+)(?:; \d+)?\]$", str(ty or ""))
+        adt = self.facts.adts.get(m.group(1)) if m and hasattr(self.facts, "adts") else None
+        if adt and adt.get("kind") == "Enum" and isinstance(val, list) and all(isinstance(x, list) and len(x) == 1 and isinstance(x[0], int) for x in val):
+            names = {v["idx"]: v["name"] for v in adt["variants"]}
+            if all(x[0] in names for x in val):
+                return [{"__adt__": m.group(1), "__variant__": names[x[0]]} for x in val]
+        return val
+
     def const_val(self, node):
         if "val" in node:
-            return node["val"]
+            return self._enum_consts(node["val"], node.get("ty"))
         c = self.facts.consts.get(node["def"])
         if c is not None and "val" in c:
-            return c["val"]
+            return self._enum_consts(c["val"], node.get("ty") or c.get("ty"))
         last = str(node.get("def", "?")).split("::")[-1]
         if getattr(self, "const_values", None) and last in self.const_values:
             # associated constants of a generic parameter, instantiated by the client (e.g. M = bool: HIGH = true, LOW = false)
@@ -754,6 +770,7 @@ class Folder:
         if self.sym_eq is not None:
             sub.sym_eq, sub.path, sub.opaque_consts, sub.views, sub.max_iter = self.sym_eq, self.path, self.opaque_consts, self.views, self.max_iter
             sub.const_values = getattr(self, "const_values", None)
+        sub.set_key = self.set_key
         for p, v in zip(body["params"], args):
             if not p.get("pat"):
                 raise Undecidable("parameter without pattern")
@@ -842,6 +859,7 @@ class Folder:
             home.lets = self.lets
             home.opaque_consts, home.views, home.max_iter, home.sym_eq, home.path = self.opaque_consts, self.views, self.max_iter, self.sym_eq, self.path
             home.const_values = getattr(self, "const_values", None)
+            home.set_key = self.set_key
             return home.apply_closure(cl, args)
         binds = {}
         for p, v in zip(params, args):
@@ -999,6 +1017,9 @@ class Folder:
         if last in ("is_ascii_digit",) and len(a) == 1:
             v = self.fold(a[0])
             return 48 <= v <= 57
+        r = self._more_builtins(cc, last, a, e, opt)
+        if r is not NotImplemented:
+            return r
         if last in ("into", "from") and len(a) == 1 and ("core::convert" in cc or "core::char::convert" in cc or cc.startswith("core::num")) \
                 and (e["ty"] in INT_TYPES or e["ty"] == "char"):
             # lossless numeric widening / u8 -> char (a char is its code point here)
@@ -1029,12 +1050,374 @@ class Folder:
                 return self.apply_closure(cl, list(args) if isinstance(args, (tuple, list)) else [args])
         return NotImplemented
 
+    def _more_builtins(self, cc, last, a, e, opt):
+        """further std models (integer helpers, ASCII predicates, Option/Result plumbing, Vec / slice operations, iterator
+        adaptors) - plain transcriptions of the documented behaviour on the folder's value model"""
+        def ints(*xs):
+            return all(isinstance(x, int) and not isinstance(x, bool) for x in xs)
+        if cc.startswith("core::num::") and a:
+            x = _loaded(self.fold(a[0]))
+            rng = ty_range(a[0].get("ty", ""))
+            if len(a) == 2:
+                y = _loaded(self.fold(a[1]))
+                if ints(x, y):
+                    if last == "div_ceil" and y != 0 and x >= 0 and y > 0:
+                        return -(-x // y)
+                    if last in ("saturating_add", "saturating_sub", "saturating_mul") and rng:
+                        v = {"saturating_add": x + y, "saturating_sub": x - y, "saturating_mul": x * y}[last]
+                        return max(rng[0], min(rng[1], v))
+                    if last in ("checked_div", "checked_rem"):
+                        if y == 0:
+                            return opt(None)
+                        q = int(x / y) if (x < 0) != (y < 0) else x // y
+                        return opt(q if last == "checked_div" else x - y * q)
+                    if last == "abs_diff":
+                        return abs(x - y)
+                    if last == "rem_euclid" and y != 0:
+                        return x % abs(y)
+                    if last == "div_euclid" and y > 0:
+                        return x // y
+                    if last in ("overflowing_add", "overflowing_sub", "overflowing_mul") and rng:
+                        v = {"overflowing_add": x + y, "overflowing_sub": x - y, "overflowing_mul": x * y}[last]
+                        return (wrap(v, a[0]["ty"]), not (rng[0] <= v <= rng[1]))
+            if len(a) == 1 and ints(x):
+                bits = {"u8": 8, "u16": 16, "u32": 32, "u64": 64, "usize": 64, "i8": 8, "i16": 16, "i32": 32, "i64": 64, "isize": 64}.get(a[0].get("ty"))
+                if last == "is_power_of_two":
+                    return x > 0 and x & (x - 1) == 0
+                if last == "count_ones" and x >= 0:
+                    return bin(x).count("1")
+                if last == "leading_zeros" and bits and x >= 0:
+                    return bits - x.bit_length()
+                if last == "trailing_zeros" and bits and x >= 0:
+                    return bits if x == 0 else (x & -x).bit_length() - 1
+                if last in ("to_be_bytes", "to_le_bytes") and bits and x >= 0:
+                    bs = [(x >> (8 * i)) & 255 for i in range(bits // 8)]
+                    return bs[::-1] if last == "to_be_bytes" else bs
+                if last == "abs":
+                    return self._chk(abs(x), e)
+                if last == "signum":
+                    return (x > 0) - (x < 0)
+            if len(a) == 3 and last == "clamp":
+                lo, hi = _loaded(self.fold(a[1])), _loaded(self.fold(a[2]))
+                if ints(x, lo, hi):
+                    if lo > hi:
+                        raise Trap("clamp with min > max at " + span_str(e["span"]))
+                    return max(lo, min(hi, x))
+        if last == "clamp" and len(a) == 3 and cc.startswith("core::cmp::"):
+            x, lo, hi = (_loaded(self.fold(z)) for z in a)
+            if ints(x, lo, hi):
+                if lo > hi:
+                    raise Trap("clamp with min > max at " + span_str(e["span"]))
+                return max(lo, min(hi, x))
+        if last.startswith(("is_ascii_", "to_ascii_")) and len(a) == 1 and ("core::num" in cc or "core::char" in cc):
+            v = _loaded(self.fold(a[0]))
+            if ints(v) and 0 <= v <= 0x10FFFF:
+                ch = chr(v) if v < 128 else None
+                table = {"is_ascii_uppercase": lambda: ch is not None and "A" <= ch <= "Z", "is_ascii_lowercase": lambda: ch is not None and "a" <= ch <= "z",
+                         "is_ascii_alphabetic": lambda: ch is not None and ch.isalpha(), "is_ascii_alphanumeric": lambda: ch is not None and ch.isalnum(),
+                         "is_ascii_punctuation": lambda: ch is not None and (33 <= v <= 47 or 58 <= v <= 64 or 91 <= v <= 96 or 123 <= v <= 126),
+                         "is_ascii_graphic": lambda: 33 <= v <= 126, "is_ascii_control": lambda: v < 32 or v == 127,
+                         "is_ascii_whitespace": lambda: v in (9, 10, 12, 13, 32), "is_ascii_hexdigit": lambda: ch is not None and ch in "0123456789abcdefABCDEF",
+                         "to_ascii_uppercase": lambda: v - 32 if 97 <= v <= 122 else v, "to_ascii_lowercase": lambda: v + 32 if 65 <= v <= 90 else v}
+                if last in table:
+                    return table[last]()
+        # Option / Result plumbing
+        if cc.startswith(("core::option::Option", "core::result::Result")) and a:
+            o = _loaded(self.fold(a[0]))
+            if isinstance(o, dict) and o.get("__variant__") in ("Some", "None", "Ok", "Err"):
+                good = o["__variant__"] in ("Some", "Ok")
+                val = o.get("#0")
+                if last == "ok_or_else" and len(a) == 2:
+                    if good:
+                        return {"__adt__": "core::result::Result", "__variant__": "Ok", "#0": val, "0": val}
+                    err = self.apply_closure(self.fold(a[1]), [])
+                    return {"__adt__": "core::result::Result", "__variant__": "Err", "#0": err, "0": err}
+                if last == "map_err" and len(a) == 2:
+                    if good:
+                        return o
+                    err = self.apply_closure(self.fold(a[1]), [val])
+                    return {"__adt__": "core::result::Result", "__variant__": "Err", "#0": err, "0": err}
+                if last == "err" and len(a) == 1:
+                    return opt(None) if good else opt(val)
+                if last == "filter" and len(a) == 2 and o["__variant__"] in ("Some", "None"):
+                    if not good:
+                        return o
+                    return o if self.apply_closure(self.fold(a[1]), [val]) else opt(None)
+                if last == "zip" and len(a) == 2 and o["__variant__"] in ("Some", "None"):
+                    o2 = _loaded(self.fold(a[1]))
+                    if isinstance(o2, dict) and o2.get("__variant__") in ("Some", "None"):
+                        return opt((val, o2.get("#0"))) if good and o2["__variant__"] == "Some" else opt(None)
+                if last == "xor" and len(a) == 2:
+                    o2 = _loaded(self.fold(a[1]))
+                    if isinstance(o2, dict) and o2.get("__variant__") in ("Some", "None"):
+                        g2 = o2["__variant__"] == "Some"
+                        return o if good and not g2 else o2 if g2 and not good else opt(None)
+                if last == "and" and len(a) == 2:
+                    return self.fold(a[1]) if good else o
+                if last == "or_else" and len(a) == 2:
+                    return o if good else self.apply_closure(self.fold(a[1]), [] if o["__variant__"] == "None" else [val])
+                if last == "flatten" and len(a) == 1:
+                    return val if good else o
+                if last in ("as_ref", "as_mut", "as_deref") and len(a) == 1:
+                    return o
+        # Vec / slice operations
+        if a and last in ("pop", "truncate", "clear", "remove", "swap_remove", "insert", "drain", "resize", "reserve", "reserve_exact", "shrink_to_fit", "dedup", "append", "split_off") \
+                and ("alloc::vec::Vec" in cc or cc.startswith("arrayvec::")):
+            v = _loaded(self.fold(a[0]))
+            if isinstance(v, list) and not isinstance(v, BSet):
+                if last in ("reserve", "reserve_exact", "shrink_to_fit"):
+                    return ()
+                if last == "pop" and len(a) == 1:
+                    return opt(_loaded(v.pop())) if v else opt(None)
+                if last == "clear" and len(a) == 1:
+                    del v[:]
+                    return ()
+                if last == "dedup" and len(a) == 1 and all(isinstance(_loaded(x), int) for x in v):
+                    out = []
+                    for x in v:
+                        if not out or _loaded(out[-1]) != _loaded(x):
+                            out.append(x)
+                    v[:] = out
+                    return ()
+                if len(a) >= 2:
+                    i = _loaded(self.fold(a[1]))
+                    if last == "truncate" and ints(i):
+                        del v[i:]
+                        return ()
+                    if last in ("remove", "swap_remove") and ints(i):
+                        if not (0 <= i < len(v)):
+                            raise Trap("%s index %d out of bounds (len %d) at %s" % (last, i, len(v), span_str(e["span"])))
+                        if last == "remove":
+                            return _loaded(v.pop(i))
+                        x = v[i]
+                        v[i] = v[-1]
+                        v.pop()
+                        return _loaded(x)
+                    if last == "insert" and len(a) == 3 and ints(i):
+                        if not (0 <= i <= len(v)):
+                            raise Trap("insert index %d out of bounds (len %d) at %s" % (i, len(v), span_str(e["span"])))
+                        v.insert(i, _loaded(self.fold(a[2])))
+                        return ()
+                    if last == "split_off" and ints(i):
+                        if not (0 <= i <= len(v)):
+                            raise Trap("split_off index %d out of bounds at %s" % (i, span_str(e["span"])))
+                        tail = list(v[i:])
+                        del v[i:]
+                        return tail
+                    if last == "resize" and len(a) == 3 and ints(i):
+                        x = _loaded(self.fold(a[2]))
+                        if i <= len(v):
+                            del v[i:]
+                        else:
+                            v.extend([x] * (i - len(v)))
+                        return ()
+                    if last == "append":
+                        o2 = _loaded(self.fold(a[1]))
+                        if isinstance(o2, list):
+                            v.extend(o2)
+                            del o2[:]
+                            return ()
+                    if last == "drain" and isinstance(i, dict) and str(i.get("__adt__", "")).startswith("core::ops::Range"):
+                        lo = i.get("start", 0) if "start" in i else 0
+                        hi = i.get("end", len(v)) if "end" in i else len(v)
+                        if str(i["__adt__"]).endswith("Inclusive"):
+                            hi += 1
+                        if not (ints(lo, hi) and 0 <= lo <= hi <= len(v)):
+                            raise Trap("drain range out of bounds at " + span_str(e["span"]))
+                        out = [_loaded(x) for x in v[lo:hi]]
+                        del v[lo:hi]
+                        return out
+        if a and last in ("windows", "split_at", "split_at_mut", "swap", "to_vec", "to_owned", "starts_with", "ends_with", "first_mut", "last_mut", "get_mut", "concat", "rposition", "rev") \
+                and cc.startswith(("core::slice::", "alloc::slice::", "alloc::vec::", "core::array::")):
+            v = _loaded(self.fold(a[0]))
+            if isinstance(v, list):
+                if last in ("to_vec", "to_owned") and len(a) == 1:
+                    return [_loaded(x) for x in v]
+                if last == "concat" and len(a) == 1 and all(isinstance(_loaded(x), list) for x in v):
+                    return [y for x in v for y in _loaded(x)]
+                if last in ("first_mut", "last_mut") and len(a) == 1:
+                    if not v:
+                        return opt(None)
+                    i = 0 if last == "first_mut" else len(v) - 1
+                    return opt(v[i] if isinstance(v[i], (Ref, dict, list)) else Ref(v, i))
+                if len(a) >= 2:
+                    n = _loaded(self.fold(a[1]))
+                    if last == "windows" and ints(n):
+                        if n == 0:
+                            raise Trap("windows(0) at " + span_str(e["span"]))
+                        return [[_loaded(x) for x in v[i:i + n]] for i in range(0, len(v) - n + 1)]
+                    if last in ("split_at", "split_at_mut") and ints(n):
+                        if not (0 <= n <= len(v)):
+                            raise Trap("split_at(%d) out of bounds (len %d) at %s" % (n, len(v), span_str(e["span"])))
+                        mut = last.endswith("_mut") and self.effects
+                        view = [x if isinstance(x, (Ref, dict, list)) or not mut else Ref(v, i) for i, x in enumerate(v)]
+                        return (view[:n], view[n:])
+                    if last == "swap" and len(a) == 3:
+                        j = _loaded(self.fold(a[2]))
+                        if ints(n, j):
+                            if not (0 <= n < len(v) and 0 <= j < len(v)):
+                                raise Trap("swap index out of bounds at " + span_str(e["span"]))
+                            xi, xj = _loaded(v[n]), _loaded(v[j])
+                            for k0, val in ((n, xj), (j, xi)):
+                                if isinstance(v[k0], Ref):
+                                    v[k0].store(val)
+                                else:
+                                    v[k0] = val
+                            return ()
+                    if last in ("starts_with", "ends_with") and isinstance(n, list):
+                        x0 = [_loaded(x) for x in v]
+                        y0 = [_loaded(x) for x in n]
+                        if all(isinstance(z, int) for z in x0 + y0):
+                            return x0[:len(y0)] == y0 if last == "starts_with" else (len(y0) == 0 or x0[-len(y0):] == y0)
+                    if last == "get_mut" and ints(n):
+                        if not (0 <= n < len(v)):
+                            return opt(None)
+                        return opt(v[n] if isinstance(v[n], (Ref, dict, list)) else Ref(v, n))
+        # iterator adaptors with a closure
+        if len(a) == 2 and last in ("take_while", "skip_while", "filter_map", "flat_map", "for_each", "map_while", "min_by_key", "max_by_key", "inspect"):
+            seq = self._iterable(_loaded(self.fold(a[0])))
+            cl = self.fold(a[1])
+            if seq is not None and isinstance(cl, dict) and ("__closure__" in cl or "__fn__" in cl):
+                if last == "take_while":
+                    out = []
+                    for x in seq:
+                        if not self.apply_closure(cl, [x]):
+                            break
+                        out.append(x)
+                    return out
+                if last == "skip_while":
+                    k0 = 0
+                    while k0 < len(seq) and self.apply_closure(cl, [seq[k0]]):
+                        k0 += 1
+                    return list(seq[k0:])
+                if last in ("filter_map", "map_while"):
+                    out = []
+                    for x in seq:
+                        r0 = self.apply_closure(cl, [x])
+                        if isinstance(r0, dict) and r0.get("__variant__") == "Some":
+                            out.append(r0.get("#0"))
+                        elif last == "map_while":
+                            break
+                    return out
+                if last == "flat_map":
+                    out = []
+                    for x in seq:
+                        sub = self._iterable(_loaded(self.apply_closure(cl, [x])))
+                        if sub is None:
+                            return NotImplemented
+                        out.extend(sub)
+                    return out
+                if last in ("for_each", "inspect"):
+                    for x in seq:
+                        self.apply_closure(cl, [x])
+                    return () if last == "for_each" else list(seq)
+                if last in ("min_by_key", "max_by_key"):
+                    if not seq:
+                        return opt(None)
+                    keys = [_loaded(self.apply_closure(cl, [x])) for x in seq]
+
+                    def plainkey(k0):
+                        return isinstance(k0, (int, bool)) or (isinstance(k0, (tuple, list)) and all(plainkey(z) for z in k0))
+                    if all(plainkey(k0) for k0 in keys):
+                        keys = [tuple(k0) if isinstance(k0, list) else k0 for k0 in keys]
+                        best = 0
+                        for i in range(1, len(seq)):
+                            # min_by_key returns the first minimum, max_by_key the last maximum
+                            if (last == "min_by_key" and keys[i] < keys[best]) or (last == "max_by_key" and keys[i] >= keys[best]):
+                                best = i
+                        return opt(seq[best])
+        if len(a) == 1 and last in ("flatten", "product", "unzip", "peekable", "fuse"):
+            seq = self._iterable(_loaded(self.fold(a[0])))
+            if seq is not None and "Iterator" in cc:
+                if last == "flatten" and all(self._iterable(_loaded(x)) is not None for x in seq):
+                    return [y for x in seq for y in self._iterable(_loaded(x))]
+                if last == "product" and all(isinstance(_loaded(x), int) for x in seq):
+                    v = 1
+                    for x in seq:
+                        v *= _loaded(x)
+                    return self._chk(v, e)
+                if last == "unzip" and all(isinstance(x, tuple) and len(x) == 2 for x in seq):
+                    return ([x[0] for x in seq], [x[1] for x in seq])
+                if last in ("peekable", "fuse"):
+                    return list(seq)
+        if cc in ("core::iter::once", "core::iter::sources::once::once") and len(a) == 1:
+            return [self.fold(a[0])]
+        if cc in ("core::iter::empty", "core::iter::sources::empty::empty") and not a:
+            return []
+        if cc == "core::mem::swap" and len(a) == 2:
+            r1, r2 = self.fold(a[0]), self.fold(a[1])
+            if isinstance(r1, Ref) and isinstance(r2, Ref):
+                x, y = r1.load(), r2.load()
+                r1.store(y)
+                r2.store(x)
+                return ()
+            if isinstance(r1, list) and isinstance(r2, list):
+                x = list(r1)
+                r1[:] = list(r2)
+                r2[:] = x
+                return ()
+        return NotImplemented
+
+    def _bset(self, items):
+        out, seen = [], set()
+        for x in sorted((_loaded(y) for y in items), key=self.set_key):
+            k0 = self.set_key(x)
+            if k0 not in seen:
+                seen.add(k0)
+                out.append(x)
+        return BSet(out)
+
+    def _bset_builtin(self, cc, last, a, e):
+        """alloc::collections::BTreeSet modelled as a sorted duplicate-free list (order = the client's key)"""
+        if last == "new" and not a:
+            return BSet()
+        if last == "from_iter" and len(a) == 1:
+            seq = self._iterable(_loaded(self.fold(a[0])))
+            return self._bset(seq) if seq is not None else NotImplemented
+        if not a:
+            return NotImplemented
+        s0 = _loaded(self.fold(a[0]))
+        if not isinstance(s0, BSet):
+            return NotImplemented
+        if last == "insert" and len(a) == 2:
+            x = _loaded(self.fold(a[1]))
+            new = self._bset(list(s0) + [x])
+            grew = len(new) > len(s0)
+            s0[:] = new
+            return grew
+        if last == "extend" and len(a) == 2:
+            seq = self._iterable(_loaded(self.fold(a[1])))
+            if seq is None:
+                return NotImplemented
+            s0[:] = self._bset(list(s0) + list(seq))
+            return ()
+        if last == "retain" and len(a) == 2:
+            cl = self.fold(a[1])
+            keep = [x for x in list(s0) if self.apply_closure(cl, [x])]
+            s0[:] = keep
+            return ()
+        if last == "contains" and len(a) == 2:
+            x = _loaded(self.fold(a[1]))
+            return self.set_key(x) in {self.set_key(y) for y in s0}
+        if last == "clone" and len(a) == 1:
+            return BSet(s0)
+        if last in ("first", "last") and len(a) == 1:
+            if not s0:
+                return {"__adt__": "core::option::Option", "__variant__": "None"}
+            v = s0[0] if last == "first" else s0[-1]
+            return {"__adt__": "core::option::Option", "__variant__": "Some", "#0": v, "0": v}
+        return NotImplemented
+
     def _seq_builtin(self, cc, last, a, e):
         """finite-sequence adaptors over constant tables (a list) and the Option/Result plumbing around them"""
         def opt(v, some=True):
             if not some:
                 return {"__adt__": "core::option::Option", "__variant__": "None"}
             return {"__adt__": "core::option::Option", "__variant__": "Some", "#0": v, "0": v}
+        if "BTreeSet" in cc and self.set_key is not None:
+            r = self._bset_builtin(cc, last, a, e)
+            if r is not NotImplemented:
+                return r
         if cc == "alloc::vec::Vec::new" and not a:
             return []
         if not a:
@@ -1195,7 +1578,7 @@ class Folder:
                 raise Trap("unwrap/expect on %s at %s" % (v["__variant__"], span_str(e["span"])))
             return NotImplemented
         if last in ("find", "position", "any", "all", "map", "filter", "rev", "len", "count", "skip", "take", "last", "next_back",
-                    "contains", "first", "nth", "enumerate", "is_empty", "get", "find_map", "step_by", "zip", "chain", "collect", "sum", "cycle", "fold"):
+                    "contains", "first", "nth", "enumerate", "is_empty", "get", "find_map", "step_by", "zip", "chain", "collect", "sum", "cycle", "fold", "max", "min"):
             v = self.fold(a[0])
             seq = self._iterable(v)
             if seq is None:
@@ -1207,7 +1590,21 @@ class Folder:
             if last == "is_empty" and len(a) == 1:
                 return not seq
             if last == "collect" and len(a) == 1:
+                ty = str(e.get("ty", ""))
+                if "BTreeSet<" in ty.split("::")[-1] or ty.startswith("alloc::collections::BTreeSet"):
+                    if self.set_key is None:
+                        raise Undecidable("collect into a BTreeSet without an order model")
+                    return self._bset(seq)
+                impl = "<%s as core::iter::FromIterator<" % ty
+                hit = [n for n in self.facts.thir if n.startswith(impl) and n.endswith(">::from_iter")] if self.local_calls > 0 else []
+                if len(hit) == 1:
+                    # a crate type's own `impl FromIterator`
+                    return self._apply_fn_item(hit[0], [[_loaded(x) for x in seq]])
                 return [_loaded(x) for x in seq]
+            if last in ("max", "min") and len(a) == 1 and all(isinstance(_loaded(x), int) and not isinstance(_loaded(x), bool) for x in seq):
+                if not seq:
+                    return opt(None, False)
+                return opt(max(_loaded(x) for x in seq) if last == "max" else min(_loaded(x) for x in seq))
             if last == "sum" and len(a) == 1 and all(isinstance(_loaded(x), int) for x in seq):
                 return sum(_loaded(x) for x in seq)
             if last == "sum" and len(a) == 1 and self.local_calls > 0:
@@ -1479,6 +1876,41 @@ class Folder:
         if e_err is not None and t_err is None:
             self.path.append((c, e_err))
             return self.fold(e["then"])
+        # `if <symbolic> { flag = true; }`: both sides only set boolean locals - the flags become symbolic (flag := c ? lit : flag)
+        def flag_sets(br):
+            if br is None:
+                return []
+            n = br
+            while n.get("k") in ("Scope", "Use") or (n.get("k") == "Block" and not n.get("stmts") and "expr" in n):
+                n = n.get("expr") if n.get("k") == "Block" else n.get("value") or n.get("arg") or n.get("expr")
+            sts = [st["expr"] for st in n.get("stmts", []) if st.get("k") == "Expr"] if n.get("k") == "Block" else [n]
+            if n.get("k") == "Block" and (len(sts) != len(n.get("stmts", [])) or ("expr" in n and not _is_unit(n["expr"]))):
+                if "expr" in n and len(sts) == len(n.get("stmts", [])):
+                    sts = sts + [n["expr"]]
+                else:
+                    return None
+            out = []
+            for st in sts:
+                st = strip(st)
+                if st.get("k") == "Assign" and strip(st["rhs"]).get("k") == "Lit" and "bool" in strip(st["rhs"]):
+                    out.append((st["lhs"], strip(st["rhs"])["bool"]))
+                elif st.get("k") == "Tuple" and not st.get("fields"):
+                    continue
+                else:
+                    return None
+            return out
+        ts = flag_sets(e["then"])
+        es = flag_sets(e.get("else")) if "else" in e else []
+        if ts is not None and es is not None and (ts or es) and self.effects:
+            for lhs, lit in ts:
+                cont, key = self._place(lhs)
+                old = cont[key]
+                cont[key] = s_or(c, old) if lit else s_and(s_not(c), old)
+            for lhs, lit in es:
+                cont, key = self._place(lhs)
+                old = cont[key]
+                cont[key] = s_or(s_not(c), old) if lit else s_and(c, old)
+            return None
         raise Undecidable("branch on a symbolic condition")
 
     def _bin(self, op, a, b, e):
@@ -1605,6 +2037,7 @@ def top_match(body, scrut_name=None):
 
 # ---- normalised S-expressions ---------------------------------------------------
 
+import re
 import re as _re
 
 _GEN = _re.compile(r"::<[^<>]*(?:<[^<>]*(?:<[^<>]*>[^<>]*)*>[^<>]*)*>")
